@@ -8,5 +8,81 @@ def run(tier):
     cm.run_kernels(r, cm.kernels('c_inside', 'c_inside#evenodd'))
     r.explanation = ('Engine C on the real c_inside: for points inside the bounding box the answer is the parity of the half-open crossing number '
                      '(per-edge step proved in nonlinear real arithmetic under the input class of the property), points outside the box keep the caller\'s value')
+    try:
+        import traceback
+        from vf import pproof, engp
+        obls, npaths = wrapper_obligations()
+        pproof.discharge(r, obls, file='src/hydrodiy/gis/gutils.py', fn_of=lambda ob: 'points_inside_polygon (python wrapper)')
+        r.functions.append(dict(file='gutils.py', fn='points_inside_polygon (python wrapper)', trusted=['c_hydrodiy_gis (replaced by a recorder: its behaviour is the proved kernel contract)'], nonterminating=[], cutloops=0, unrolled=0, terminating=0))
+        r.extra['paths_explored'] = npaths
+    except (engp.Unsupported, engp.PathLimit) as e:
+        r.undecided.append('Engine P cannot execute the current points_inside_polygon wrapper symbolically: %s' % (str(e)[:300],))
+    except Exception:
+        r.broken.append('C15 Engine P driver crashed: ' + traceback.format_exc()[-2500:])
     cm.run_monitors(r, ['mon_polygon_api'])
     return r.finish()
+
+
+# ------------------------------------------------------------------------------------------------ Engine P: the python wrapper of c_inside
+def wrapper_obligations():
+    """the real gutils.points_inside_polygon on symbolic points / polygon with the compiled module replaced by a recorder: the kernel is entered
+    once with the tolerance, the points and the vertices unchanged and a result vector that is ZERO on entry - also when the caller supplies a
+    vector holding values from an earlier call (the kernel leaves points outside the bounding box untouched: its contract says so) - and the
+    vector the kernel wrote is what the caller gets"""
+    import numpy as np, z3
+    from vf import engp, pproof, pybuild
+    from vf.engp import sym, SymReal, SA
+    pybuild.activate()
+    from hydrodiy.gis import gutils as U
+
+    class Kernel:
+        def __init__(self):
+            self.calls = []
+
+        def points_inside_polygon(self, atol, nprint, points, polygon, inside):
+            self.calls.append(dict(atol=atol, nprint=int(nprint), points=np.asarray(points, dtype=object).copy(), polygon=np.asarray(polygon, dtype=object).copy(),
+                                   inside0=[int(v) for v in inside], dtype=np.asarray(inside).dtype, same_buffer=inside))
+            inside[:] = [1, 0, 1][:len(inside)]
+            return 0
+
+    obls = []; npaths = 0
+    npt, nv = 3, 3
+    P = [[sym('p%d_%d' % (i, k)) for k in range(2)] for i in range(npt)]; V = [[sym('v%d_%d' % (i, k)) for k in range(2)] for i in range(nv)]
+    names = ['p%d_%d' % (i, k) for i in range(npt) for k in range(2)] + ['v%d_%d' % (i, k) for i in range(nv) for k in range(2)]
+    eq = lambda a, b: z3.And(z3.Not(SymReal.lift(a).nan), SymReal.lift(a).val == SymReal.lift(b).val)
+    for given in (None, 'zeros', 'stale'):
+        kern = Kernel()
+        buf = None if given is None else (np.zeros(npt, dtype=np.int32) if given == 'zeros' else np.ones(npt, dtype=np.int32))
+
+        def run():
+            kern.calls = []
+            a = np.empty((npt, 2), dtype=object); b = np.empty((nv, 2), dtype=object)
+            for i in range(npt):
+                a[i, :] = P[i]
+            for i in range(nv):
+                b[i, :] = V[i]
+            if buf is not None and given == 'stale':
+                buf[:] = 1
+            out = U.points_inside_polygon(a.view(SA), b.view(SA)) if buf is None else U.points_inside_polygon(a.view(SA), b.view(SA), buf)
+            return out, list(kern.calls)
+        saved = (U.np, U.c_hydrodiy_gis, U.has_c_module)
+        U.np = engp.NPProxy(); U.c_hydrodiy_gis = kern; U.has_c_module = lambda *a, **kw: True
+        try:
+            paths = engp.explore(run, base=[], allowed_exc=())
+        finally:
+            U.np, U.c_hydrodiy_gis, U.has_c_module = saved
+        npaths += len(paths)
+        for kp, pa in enumerate(paths):
+            out, calls = pa.result
+            hyp = list(pa.pc) + list(pa.axioms)
+            tag = 'gutils.py/points_inside_polygon/inside=%s/path%d' % (given, kp)
+            if len(calls) != 1:
+                obls.append(pproof.PObligation(tag + '/one-kernel-call', 'post', 'the kernel is entered exactly once', hyp, z3.BoolVal(False), names)); continue
+            c = calls[0]
+            obls.append(pproof.PObligation(tag + '/zeroed-result-vector', 'post', 'the kernel receives an int32 result vector of one entry per point that is zero on entry (caller vector: %s)' % given, hyp,
+                                           z3.BoolVal(c['inside0'] == [0] * npt and c['dtype'] == np.int32 and (buf is None or c['same_buffer'] is buf)), names))
+            obls.append(pproof.PObligation(tag + '/data', 'post', 'the kernel receives the points and the vertices unchanged and the default tolerance 1e-8', hyp,
+                                           z3.And(z3.BoolVal(c['points'].shape == (npt, 2) and c['polygon'].shape == (nv, 2) and float(c['atol']) == 1e-8),
+                                                  *([eq(c['points'][i, k], P[i][k]) for i in range(npt) for k in range(2)] + [eq(c['polygon'][i, k], V[i][k]) for i in range(nv) for k in range(2)])), names))
+            obls.append(pproof.PObligation(tag + '/returns-kernel-flags', 'post', 'the flags written by the kernel are returned', hyp, z3.BoolVal([int(v) for v in out] == [1, 0, 1]), names))
+    return obls, npaths
